@@ -846,7 +846,7 @@ def run(ctx):
         ctx.count("exhaustive_%s_%dd_%dops" % (an, nd, nops), cnt)
     if ctx.exhaustive is None:
         ctx.exhaustive = True
-    for i in ctx.cases(30000, 1000000):
+    for i in ctx.cases(30000, 600000):
         rng = ctx.case_rng("rand", i)
         nd, ops = random_program(rng, big=(i % 2 == 0))
         st = check_program(ctx, nd, ops, "random case %d" % i)
@@ -857,7 +857,7 @@ def run(ctx):
             gc.collect()
         if i < ctx.nshards:
             ctx.sample({"case": i, "nd": nd, "ops": _tolists(ops), "model_stats": st})
-    for i in ctx.cases(24000, 600000):
+    for i in ctx.cases(24000, 400000):
         rng = ctx.case_rng("reent", i)
         nd, ops = random_reentrant(rng)
         st = check_program(ctx, nd, ops, "re-entrant random case %d" % i)
